@@ -14,8 +14,8 @@ PLACE=$(python3 -c "import json;print(json.load(open('$OUT/meta.json'))['demo_pl
 CMD=$(python3 -c "import json;print(json.load(open('$OUT/meta.json'))['demo_cmd'])")
 go build ./... >>$LOG 2>&1 || { echo "$ID build-fails"; exit 2; }
 echo "== suite with patch (demo absent)" >>$LOG
-go test -vet=off -count=1 -timeout 25m ./... > $OUT/suite.log 2>&1
-SUITE_FAILS=$(grep -E "^(FAIL|---)" $OUT/suite.log | grep -v gdaxfeeder | grep -E "^FAIL|--- FAIL" | tr '\n' ' ')
+go test -p 6 -vet=off -count=1 -timeout 25m $(go list ./... | grep -v contrib/gdaxfeeder) > $OUT/suite.log 2>&1
+SUITE_FAILS=$(grep -E "^(FAIL|--- FAIL|panic:)" $OUT/suite.log | tr '\n' ' ')
 echo "suite failures (excluding gdaxfeeder): [$SUITE_FAILS]" >>$LOG
 DEMOFILE=$(ls $OUT/demo/*.go | head -1)
 mkdir -p $(dirname $PLACE); cp $DEMOFILE $PLACE
